@@ -16,6 +16,9 @@
 //	      111) shapes for the first argument x 6 (15) for the second
 //	hash  lists above the 50-element threshold of the `in` fast path with one element (or a needle)
 //	      of a comparable type whose contents cannot be hashed, x constructs that hash or compare
+//	num   every registered filter x 19 subjects (NaN, +-Inf as float64 / float32 and as the strings
+//	      'NaN', 'inf', '-Inf', '+Infinity', '1e999', '-1e999'; seven finite ones) x 9 call forms x
+//	      integer arguments -100, -1, 0, 1, 2, 3, 1 000 000 (context value and literal)
 //	hist  render histories on ONE engine: a render that fails inside an include (13 failing leaves x
 //	      12 include option sets x 11 placements), then 23 sound templates with includes nested 1..3
 //	      deep that write to / read through their contexts; several rounds, without and with forced
@@ -267,7 +270,7 @@ func memoryWatchdog() {
 func main() {
 	vlib.Main(vlib.Spec{
 		ID: "C05", Level: "exploration",
-		Rule: "bounded-exhaustive: (lex) all sequences of <=k lexemes - free, inside {% tag ... %}, inside {{ ... }} - spaced/unspaced, also behind a 4100-byte prefix (second tokenizer); (mut) all distance-1 lexeme and byte mutations and truncations of a 94-template corpus, deep nestings; (grid) each of " + fmt.Sprint(len(constructs)) + " operand-taking constructs - every filter / function / test / word operator that the engine under test registers in its core extension (names read from the engine, so a newly added one is swept too) in every call form incl. an argument computed in the template (a / 4) - x each of " + fmt.Sprint(len(shapes)) + " Go value shapes for the subject x " + fmt.Sprint(len(aQuick)) + " (thorough: all) shapes for the first argument x " + fmt.Sprint(len(bQuick)) + " (thorough: " + fmt.Sprint(len(bShapes)) + ") for the second, the shapes including fractions strictly between 0 and 1 (float64, float32, numeric string), 1e300, 2^63 as a float, NaN, +-Inf; (hash) every list of 51 / 64 / 100 (thorough also 50, 52, 1000) elements - untyped, []Cell, [][2]interface{}, []float64, []error, [51]interface{} - with one odd element first / in the middle / last out of 25 (values of a comparable type holding a slice, map or func behind an interface; pointers, funcs, chans, NaN) x 31 needles x 28 constructs that hash or compare (in, not in, same_as, ==, hash keys, item access, merge, sort, max); (hist) on one engine, every history [render failing inside an include: 13 failing leaves x 12 include option sets (plain/with/only/sandboxed/ignore missing and combinations, failing with-expression) x 11 placements (top, loop, capture, apply, macro, block, nested 2 and 3 deep) x policy installed or not] then [23 sound templates with includes nested 1..3 deep using set/for/macro/with/only/lookups], 4 rounds (thorough: 23), orders FS/SF/FFS and two different failures in a row, with 0/1/2 forced GCs in between - every render must not panic and must give what an engine without history gives; (bin) all byte strings <=2, all strings <=6 (thorough: 8) over 6 boundary bytes, all prefixes / single-byte substitutions / boundary length prefixes of 8 valid serialisations. Each case: fresh engine, parse, render, then a canary on the same engine; panics recovered and reported, fatal errors and hangs isolated by the worker protocol. Non-trivial = lex/mut: the source contains a tag opener (the tag parsers are reached); grid: the template parsed and was rendered with a subject that is not a plain untyped scalar; hist: the failing render really returned an error; bin: the decoder got past the version byte or into the gob fallback with >= 2 bytes",
+		Rule: "bounded-exhaustive: (lex) all sequences of <=k lexemes - free, inside {% tag ... %}, inside {{ ... }} - spaced/unspaced, also behind a 4100-byte prefix (second tokenizer); (mut) all distance-1 lexeme and byte mutations and truncations of a 94-template corpus, deep nestings; (grid) each of " + fmt.Sprint(len(constructs)) + " operand-taking constructs - every filter / function / test / word operator that the engine under test registers in its core extension (names read from the engine, so a newly added one is swept too) in every call form incl. an argument computed in the template (a / 4) - x each of " + fmt.Sprint(len(shapes)) + " Go value shapes for the subject x " + fmt.Sprint(len(aQuick)) + " (thorough: all) shapes for the first argument x " + fmt.Sprint(len(bQuick)) + " (thorough: " + fmt.Sprint(len(bShapes)) + ") for the second, the shapes including fractions strictly between 0 and 1 (float64, float32, numeric string), 1e300, 2^63 as a float, NaN, +-Inf; (hash) every list of 51 / 64 / 100 (thorough also 50, 52, 1000) elements - untyped, []Cell, [][2]interface{}, []float64, []error, [51]interface{} - with one odd element first / in the middle / last out of 25 (values of a comparable type holding a slice, map or func behind an interface; pointers, funcs, chans, NaN) x 31 needles x 28 constructs that hash or compare (in, not in, same_as, ==, hash keys, item access, merge, sort, max); (num) every registered filter x 19 subjects (NaN, +Inf, -Inf as float64 and float32 and spelled as the strings 'NaN', 'inf', '-Inf', '+Infinity', '1e999', '-1e999'; 7 finite numbers / strings / a list) x 9 call forms (0..3 arguments, apply, chained twice) x the integer argument -100, -1, 0, 1, 2, 3, 1000000 given as a context value and as a literal; (hist) on one engine, every history [render failing inside an include: 13 failing leaves x 12 include option sets (plain/with/only/sandboxed/ignore missing and combinations, failing with-expression) x 11 placements (top, loop, capture, apply, macro, block, nested 2 and 3 deep) x policy installed or not] then [23 sound templates with includes nested 1..3 deep using set/for/macro/with/only/lookups], 4 rounds (thorough: 23), orders FS/SF/FFS and two different failures in a row, with 0/1/2 forced GCs in between - every render must not panic and must give what an engine without history gives; (bin) all byte strings <=2, all strings <=6 (thorough: 8) over 6 boundary bytes, all prefixes / single-byte substitutions / boundary length prefixes of 8 valid serialisations. Each case: fresh engine, parse, render, then a canary on the same engine; panics recovered and reported, fatal errors and hangs isolated by the worker protocol. Non-trivial = lex/mut: the source contains a tag opener (the tag parsers are reached); grid: the template parsed and was rendered with a subject that is not a plain untyped scalar; num: the template parsed and was rendered with a non-finite subject or an integer argument; hist: the failing render really returned an error; bin: the decoder got past the version byte or into the gob fallback with >= 2 bytes",
 		Assumptions: []string{
 			"'every byte string' is bounded as stated in Rule; 'hang' = a worker that prints no progress for 120 s (25 s when re-run alone), confirmed twice on the case alone",
 			"integers that drive the SIZE of a result (range bounds, `..` bounds, slice/cycle positions are fine) are kept small: range(0, 2^63-1) asks for 2^63 elements and is not distinguishable from a hang",
@@ -285,7 +288,7 @@ func main() {
 			fams := []struct {
 				name string
 				run  func(*vlib.T)
-			}{{"flood", runFlood}, {"hist", runHist}, {"hash", runHash}, {"grid", runGrid}, {"mut", runMut}, {"lex", runLex},
+			}{{"flood", runFlood}, {"num", runNum}, {"hist", runHist}, {"hash", runHash}, {"grid", runGrid}, {"mut", runMut}, {"lex", runLex},
 				{"bin", runBin}} // bin last: on a tree that trusts length prefixes these cases allocate GiBs and are slow
 			for _, f := range fams {
 				if onlyFam == "" || onlyFam == f.name { // C05_ONLY: development aid, never set by run.sh
